@@ -27,6 +27,7 @@ use std::path::Path;
 pub const TARGETS: &[Target] = &[
     ("c07facts", "C07Facts", c07facts as Gen),
     ("c07arms", "C07Arms", arms::c07arms as Gen),
+    ("c07cycle", "C07Cycle", arms::c07cycle as Gen),
 ];
 
 fn norm(t: impl ToTokens) -> String {
@@ -1294,6 +1295,58 @@ mod arms {
             &fns,
         ));
         out.push_str("end RotoV.Gen.C07Arms\n");
+        Ok(out)
+    }
+
+    /// `C07Cycle.lean`: the same kind of skeleton for src/typechecker/value_cycle.rs — the two
+    /// loops of `find_compilation_order` and Tarjan's algorithm (`tarjan`, `strongly_connect`,
+    /// `State::update_lowlink`, the fields of `VertexState` and `State`). `Model/Tarjan.lean` was
+    /// written from it; `Model/TcValueCyclePinned.lean` holds the copy.
+    pub fn c07cycle(repo: &Path) -> Result<String, String> {
+        let file = find::parse(repo, "src/typechecker/value_cycle.rs")?;
+        let mut fns: Vec<(String, Vec<String>)> = Vec::new();
+        fns.push((
+            "find_compilation_order".to_string(),
+            fn_events(&find::func(&file, "find_compilation_order", Some("TypeChecker"))?.block, None),
+        ));
+        fns.push(("tarjan".to_string(), fn_events(&find::func(&file, "tarjan", None)?.block, None)));
+        fns.push(("strongly_connect".to_string(), fn_events(&find::func(&file, "strongly_connect", None)?.block, None)));
+        fns.push(("update_lowlink".to_string(), fn_events(&find::func(&file, "update_lowlink", Some("State"))?.block, None)));
+        // the state the algorithm keeps: field names and types of the two structs
+        for sname in ["VertexState", "State"] {
+            let mut found = None;
+            for item in &file.items {
+                if let syn::Item::Struct(st) = item {
+                    if st.ident == sname && !is_hook_cfg(&st.attrs) {
+                        found = Some(st);
+                    }
+                }
+            }
+            let st = found.ok_or_else(|| format!("struct {sname} not found in value_cycle.rs"))?;
+            let fields: Vec<String> = st
+                .fields
+                .iter()
+                .filter(|f| !is_hook_cfg(&f.attrs))
+                .map(|f| {
+                    format!(
+                        "{}:{}",
+                        f.ident.as_ref().map(|i| i.to_string()).unwrap_or_default(),
+                        f.ty.to_token_stream().to_string().replace([' ', '\n'], "")
+                    )
+                })
+                .collect();
+            fns.push((format!("struct {sname}"), fields));
+        }
+        let mut out = String::new();
+        out.push_str("/- GENERATED by /verif/extract (target c07cycle) from src/typechecker/value_cycle.rs — do not edit.\n");
+        out.push_str("   Skeleton of find_compilation_order and of Tarjan's algorithm (event vocabulary: extract/src/targets/c07.rs, `mod arms`). -/\n");
+        out.push_str("namespace RotoV.Gen.C07Cycle\n\n");
+        out.push_str(&lean_table(
+            "find_compilation_order (TypeChecker), tarjan, strongly_connect, State::update_lowlink: statements and control flow in source order, locals alpha-renamed; and the fields of VertexState / State",
+            "cycleSkeletons",
+            &fns,
+        ));
+        out.push_str("end RotoV.Gen.C07Cycle\n");
         Ok(out)
     }
 }
